@@ -486,6 +486,10 @@ func main() {
 			failed = true
 		}
 		path := filepath.Join(*out, m.Path)
+		if len(errs) > 0 {
+			// keep the last good file so that the driver still builds; the tie is reported broken
+			continue
+		}
 		old, _ := os.ReadFile(path)
 		if string(old) != text {
 			_ = os.MkdirAll(filepath.Dir(path), 0755)
